@@ -24,7 +24,11 @@ def collectNames (j : J) : Tbl :=
     ((st.getArr? "upd").getD []).filterMap fun
       | .arr (.str n :: _) => some n
       | _ => none
-  (ps "pos" ++ ps "kwonly" ++ opt "varargs" ++ opt "varkw" ++ kws "c1" ++ kws "c2" ++ stepNames).eraseDups
+  let lateNames : List String := ((j.getArr? "late").getD []).flatMap fun st =>
+    (((st.getArr? "upd").getD []).filterMap fun
+      | .arr (.str n :: _) => some n
+      | _ => none) ++ (match st.getStr? "name" with | some n => [n] | none => [])
+  (ps "pos" ++ ps "kwonly" ++ opt "varargs" ++ opt "varkw" ++ kws "c1" ++ kws "c2" ++ stepNames ++ lateNames).eraseDups
 
 def paramOfJ (t : Tbl) : J → Option Param
   | .arr [.str n, .null] => some ⟨t.idx n, none⟩
@@ -64,6 +68,13 @@ def callOfJ (t : Tbl) (j : J) : Option CallJ := do
   let o ← optBoolOfJ (j.getD "override" .null)
   let i ← optBoolOfJ (j.getD "ignore" .null)
   pure ⟨⟨args, kwargs⟩, o, i⟩
+
+def lateOfJ (t : Tbl) (j : J) : Option LateOp :=
+  match j.getStr? "op" with
+  | some "rebind" => ((j.get? "upd").bind (kwOfJ t)).map LateOp.rebind
+  | some "set_va" => ((j.getArr? "vals").bind (·.mapM J.asInt?)).map LateOp.setVarargs
+  | some "del" => (j.getStr? "name").map (fun n => LateOp.del (t.idx n))
+  | _ => none
 
 def kwToJ (t : Tbl) (m : KW) : J := .arr (m.map fun (k, v) => .arr [.str (t.name k), .int v])
 
@@ -115,6 +126,42 @@ def handle (j : J) : J :=
                | .ok o => reportedToJ t (reportArgs o.sig o.fields o.va)
                | .error _ => .null),
             ("py_c1", specToJ t npo s c1.call)]
+    | some "nest" =>
+      -- outer = (sig, c1, c2); inner = (sig_in, in_c1, in_c2); object ids: outer 1, inner 2; thread 0 / 1
+      match (j.get? "sig_in").bind (sigOfJ t), (j.get? "in_c1").bind (callOfJ t), (j.get? "in_c2").bind (callOfJ t),
+            (j.get? "c2").bind (callOfJ t) with
+      | some sIn, some ic1, some ic2, some oc2 =>
+        let lateOps : List LateOp := ((j.getArr? "late").getD []).filterMap (lateOfJ t)
+        match functorInit s c1.call (c1.override.getD false) (c1.ignore.getD false),
+              functorInit sIn ic1.call (ic1.override.getD false) (ic1.ignore.getD false) with
+        | .ok Fo0, .ok Fi =>
+          let Fo := lateOps.foldl Functor.late Fo0
+          let shared := (j.getBool? "shared_tls").getD false
+          match parseOverrides true Fo oc2.call oc2.override oc2.ignore with
+          | .error e => .obj [("out_init", .str "ok"), ("in_init", .str "ok"), ("call", .obj [("err", .str (pyErrName e))])]
+          | .ok c' =>
+            -- members of the outer functor during the call = what the wrapped function would see
+            let mine := pyCall s c'
+            -- the overrides of this invocation: every positional parameter by name, plus the keywords
+            let ov : KW := s.posNames.zip c'.args ++ c'.kwargs
+            let attrs : Nat → KW := fun o =>
+              if o == 2 then withDefaults Fi.bound sIn.pos else withDefaults Fo.bound s.pos
+            let st : OvStore := OvStore.enter [] 1 0 ov
+            let rd (o th : Nat) (ps : List Param) : J := .arr (ps.map fun p =>
+              .arr [.str (t.name p.name),
+                    match (if shared then resolveSharedTLS attrs st o th p.name else resolve attrs st o th p.name) with
+                    | some v => .int v
+                    | none => .str "MISSING"])
+            .obj [("out_init", .str "ok"), ("in_init", .str "ok"),
+                  ("call", .obj [("ok", .obj [
+                     ("mine", outcomeToJ t mine),
+                     ("read", rd 2 0 sIn.pos),
+                     ("called", outcomeToJ t (functorCall true Fi ic2.call ic2.override ic2.ignore)),
+                     ("thread_read_self", rd 1 1 s.pos),
+                     ("thread_read_inner", rd 2 1 sIn.pos)])])]
+        | .error e, _ => .obj [("out_init", .str (pyErrName e))]
+        | .ok _, .error e => .obj [("out_init", .str "ok"), ("in_init", .str (pyErrName e))]
+      | _, _, _, _ => bad "nest"
     | some "hist" =>
       -- construct, then a sequence of rebinds; per step: reported args and what __init__ sees
       let steps : List KW := ((j.getArr? "steps").getD []).filterMap (fun st => (st.get? "upd").bind (kwOfJ t))
@@ -138,24 +185,28 @@ def handle (j : J) : J :=
         let fix29 := (j.getBool? "fix29").getD true
         let ign := c2.ignore.getD (c1.ignore.getD false)
         let ovr := c2.override.getD (c1.override.getD false)
+        let lateOps0 : List LateOp := ((j.getArr? "late").getD []).filterMap (lateOfJ t)
+        let effL := effectiveLate npo s c1.call lateOps0 c2.call ign
         let common : List (String × J) :=
           [("py_c1", specToJ t npo s c1.call), ("py_c2", specToJ t npo s c2.call),
-           ("effective", match effectivePO npo s c1.call c2.call ign with
-              | .ok c => callToJ t c
+           ("effective", match effL with
+              | .ok (c, _, _) => callToJ t c
               | .error _ => .null),
-           ("py_eff", match effectivePO npo s c1.call c2.call ign with
-              | .ok c => specToJ t npo s c
+           ("py_eff", match effL with
+              | .ok (c, _, _) => specToJ t npo s c
               | .error _ => .null),
-           ("conflict", match nameArgs s c1.call, nameArgs s (if ign then dropExtras s c2.call else c2.call) with
-              | .ok n1, .ok n2 => .bool (conflicts n1 n2)
-              | _, _ => .null),
-           ("va_conflict", match nameArgs s c1.call, nameArgs s (if ign then dropExtras s c2.call else c2.call) with
-              | .ok n1, .ok n2 => .bool (vaConflict n1 n2)
-              | _, _ => .null),
+           ("conflict", match effL with
+              | .ok (_, b, _) => .bool b
+              | .error _ => .null),
+           ("va_conflict", match effL with
+              | .ok (_, _, b) => .bool b
+              | .error _ => .null),
            ("override", .bool ovr)]
+        let lateOps : List LateOp := ((j.getArr? "late").getD []).filterMap (lateOfJ t)
         match functorInit s c1.call (c1.override.getD false) (c1.ignore.getD false) with
         | .error e => .obj ([("init", .str (pyErrName e))] ++ common)
-        | .ok F =>
+        | .ok F0 =>
+          let F := lateOps.foldl Functor.late F0
           .obj ([("init", .str "ok"),
                  ("sym_init_args", reportedToJ t (symInitArgs F)),
                  ("specified", J.ofStrs (F.specified.map t.name)),
